@@ -189,5 +189,8 @@ def run(ctx, res):
     res.extra["guards_used"] = sorted({g for f in hs for g in cf.results[f.name].guards})
     r12_endpoint_candidates(ctx, res)
     r13_kernel_guards(ctx, res)
+    from ..confinement import numeric_rejections
+    k = numeric_rejections(ctx, res, "R1.4", hs, "flat x flat handlers")
+    res.count("numeric rejections", k)
     res.undecided_ob("numeric kernels compute the right coordinates (assumption A4)")
     res.undecided_ob("completeness beyond end-point candidates; tolerance band; None only when disjoint")
